@@ -226,6 +226,9 @@ func main() {
 		props[p] = true
 	}
 	switch os.Args[1] {
+	case "env":
+		envProbe()
+		return
 	case "graph":
 		n, _ := strconv.Atoi(os.Args[3])
 		graphSearch(n, os.Args[4:])
@@ -490,6 +493,37 @@ func graphSearch(n int, extra []string) {
 		fmt.Println("FAILING-HISTORY", f)
 	}
 	if len(fails) > 0 {
+		os.Exit(1)
+	}
+}
+
+// ---- C13: a spokfile variable reaches commands by template and by environment, whatever the ambient value
+func envProbe() {
+	dir, _ := os.MkdirTemp("", "envprobe-")
+	defer os.RemoveAll(dir)
+	os.Setenv("SPOKVAR", "ambient")
+	os.Setenv("OTHERVAR", "ambient2")
+	text := "SPOKVAR := \"from spokfile\"\nUNSET := \"u\"\ntask t() {\n echo $SPOKVAR-{{.SPOKVAR}}-$UNSET-$OTHERVAR\n}\n"
+	tree, err := parser.New(text).Parse()
+	if err != nil {
+		fmt.Println("FAILING-CASE parse:", err)
+		os.Exit(1)
+	}
+	sf, err := file.New(tree, dir, nopLogger{})
+	if err != nil {
+		fmt.Println("FAILING-CASE file.New:", err)
+		os.Exit(1)
+	}
+	res, err := sf.Run(iostream.Null(), shell.NewIntegratedRunner(), true, "t")
+	if err != nil || len(res) != 1 || len(res[0].CommandResults) != 1 {
+		fmt.Println("FAILING-CASE run:", err, res)
+		os.Exit(1)
+	}
+	got := strings.TrimSpace(res[0].CommandResults[0].Stdout)
+	want := "from spokfile-from spokfile-u-ambient2"
+	fmt.Printf("SEARCH prop=C13 cases=1\n")
+	if got != want {
+		fmt.Printf("FAILING-CASE spokfile `%s` with ambient SPOKVAR=ambient: command printed %q, want %q\n", strings.ReplaceAll(text, "\n", "\\n"), got, want)
 		os.Exit(1)
 	}
 }
